@@ -33,33 +33,24 @@ def run(ctx, rep):
         if ty.startswith("Gray"):
             check_gray(prog, rep, ty, c2c, c2ch)
             continue
-        # finite tables
+        # finite tables (path summaries: `match`, `if c == '.'`, `==` on the enum … alike)
         fwd = {}
-        for lits, ret, _ in decisions(c2c):
-            ch = None
-            for d, lit in lits:
-                if d == ("param", 1, "c") and len(lit) == 1 and isinstance(lit[0], int):
-                    ch = chr(lit[0])
+        tab, _d = finite_table(prog, c2c, ("param", 1, "c"))
+        for k, ret in tab.items():
+            if not isinstance(k, int):
+                continue
             if ty == "BinaryColor":
                 val = ret[1].split("::")[-1] if ret[0] == "agg" else None
             else:
                 val = const_struct_field0(ret)
-            if ch is not None:
-                fwd[ch] = val
+            fwd[chr(k)] = val
         back = {}
-        other = None
-        for lits, ret, _ in decisions(c2ch):
-            if ret[0] != "const" or not isinstance(ret[1], str):
-                continue
-            for d, lit in lits:
-                if ty == "BinaryColor" and d[0] == "discr":
-                    if len(lit) == 1 and isinstance(lit[0], int):
-                        back[{0: "Off", 1: "On"}[lit[0]]] = ret[1]
-                elif match(strip_refs(d), ("field", ("param", 1, "color"), 0)) is not None:
-                    if len(lit) == 1 and isinstance(lit[0], int):
-                        back[lit[0]] = ret[1]
-                    elif lit[0] == "not":
-                        other = ret[1]
+        subj = ("param", 1, "color") if ty == "BinaryColor" else ("field", ("param", 1, "color"), 0)
+        tab, other_ret = finite_table(prog, c2ch, subj, alt_subject=("param", 1, "color"))
+        for k, ret in tab.items():
+            if ret[0] == "const" and isinstance(ret[1], str):
+                back[k] = ret[1]
+        other = other_ret[1] if other_ret is not None and other_ret[0] == "const" and isinstance(other_ret[1], str) else None
         probs = []
         if len(set(fwd.values())) != len(fwd) or None in fwd.values():
             probs.append("two pattern characters map to one colour (or a colour could not be evaluated): %s" % fwd)
@@ -102,6 +93,53 @@ def run(ctx, rep):
     # R20.4: any native fill_* of MockDisplay must pair streams with the caller's area (shared rule R03.6)
     from rules.c03 import zip_rule_everywhere
     zip_rule_everywhere(prog, rep, only_adt=MD, rule="R20.4", floor=0)
+
+
+def _ordc(t):
+    """character constants as their code points"""
+    if t[0] == "const" and isinstance(t[1], str) and len(t[1]) == 1:
+        return ("const", ord(t[1]))
+    return t
+
+
+def finite_table(prog, f, subject, alt_subject=None):
+    """{key: returned tree} of a function that decides on `subject` alone: key = the integer / char code the
+    subject equals, or the variant name it has; plus the result for everything else (only != facts)."""
+    from mirq.paths import Paths, Unsupported
+    if not hasattr(prog, "_c20_paths"):
+        prog._c20_paths = Paths(prog)
+    table, default = {}, None
+    try:
+        summs = prog._c20_paths.of(f)
+    except Unsupported:
+        return {}, None
+    for sm in summs:
+        keys = []
+        only_ne = True
+        for fct in sm.facts:
+            a_, b_ = (_ordc(strip_refs(x)) if isinstance(x, tuple) and x and isinstance(x[0], str) and x[0] not in ("not", "any") else x for x in fct[1:3])
+            if fct[0] == "eq" and (a_ in (subject, alt_subject) or b_ in (subject, alt_subject)):
+                c = b_ if a_ in (subject, alt_subject) else a_
+                if c[0] == "const" and isinstance(c[1], int):
+                    keys.append(c[1])
+                only_ne = False
+            elif fct[0] == "variant" and fct[1] in (subject, alt_subject):
+                keys += list(fct[2]) if len(fct[2]) == 1 else []
+                only_ne = False
+            elif fct[0] == "ne" and (a_ in (subject, alt_subject) or b_ in (subject, alt_subject)):
+                pass
+            elif fct[0] == "switch" and a_ in (subject, alt_subject) and fct[2] and fct[2][0] == "not":
+                pass   # none of the listed values
+            else:
+                only_ne = False
+                keys = None
+                break
+        if keys:
+            for k in keys:
+                table[k] = sm.ret
+        elif keys is not None and only_ne:
+            default = sm.ret
+    return table, default
 
 
 def rgb_max(prog, adt):
@@ -275,40 +313,44 @@ def check_draw_pixel(prog, rep):
 
 
 def check_indexing(prog, rep):
-    """get_pixel / set_pixel / set_pixel_unchecked address the same cell: pixels[x + y * SIZE]."""
+    """get_pixel / set_pixel / set_pixel_unchecked address the same cell: pixels[x + y * SIZE] (path summaries; one of
+    them may delegate to another)."""
     from rules.c10 import fold
-    forms = {}
-    for nm in ("get_pixel", "set_pixel", "set_pixel_unchecked"):
-        f = prog.method1(MD, nm, None)
-        o = Origins(f)
-        idxs = set()
-        for bi in sorted(o.cfg.live_blocks()):
-            blk = f.body["blocks"][bi]
-            for si, s in enumerate(blk["s"]):
-                if s["k"] != "assign":
-                    continue
-                for pl in (s["place"], s["rv"].get("place"), (s["rv"].get("a") or {}).get("copy"), (s["rv"].get("a") or {}).get("move")):
-                    if pl and any(isinstance(e, dict) and "idx" in e for e in pl["p"]):
-                        l = [e["idx"] for e in pl["p"] if isinstance(e, dict) and "idx" in e][0]
-                        idxs.add(fold(strip_refs(o._local(l, (), bi, si))))
-            t = blk["t"]
-            if t and t["k"] == "call" and t["f"].get("name") in ("get", "get_mut", "index", "index_mut"):
-                a = o.term_args(bi)
-                if len(a) > 1:
-                    idxs.add(fold(strip_refs(a[1])))
-        forms[nm] = idxs
-    P = ("param", 2, "{p}")
+    from mirq.paths import Paths, Unsupported
+    from mirq.poly import normal_form
+    from mirq.origin import mk_bin
+    P_ = Paths(prog, inline=lambda g: prog.is_new(g) or (g.name in ("get_pixel", "set_pixel", "set_pixel_unchecked") and g.path.startswith(MD)))
+    px = ("field", ("param", 1, "self"), field_index(prog, MD, "pixels"))
     ok = True
     shown = {}
-    for nm, idxs in forms.items():
-        shown[nm] = [show(i) for i in idxs]
-        good = False
-        for i in idxs:
-            m = match(i, ("bin", "Add", ("field", "?p", 0), ("bin", "Mul", ("field", "?p", 1), ("const", "?size"))))
-            if m is not None and m["?p"][0] == "param" and m["?p"][1] == 2 and (m["?size"] == 64 or "SIZE" in str(m["?size"])):
-                good = True
-        ok = ok and good and len(idxs) == 1
+    for nm in ("get_pixel", "set_pixel", "set_pixel_unchecked"):
+        f = prog.method1(MD, nm, None)
+        idxs = set()
+        try:
+            for sm in P_.of(f):
+                for e in sm.writes():
+                    if e[1][0] == "index" and e[1][1] == px:
+                        idxs.add(e[1][2])
+                    else:
+                        idxs.add(("unknown", show(e[1], maxd=3)))
+                if nm == "get_pixel":
+                    for n in walk(sm.ret):
+                        if n[0] == "index" and n[1] == px:
+                            idxs.add(n[2])
+        except Unsupported as e:
+            idxs.add(("unknown", str(e)))
+        pt = ("param", 2, f.body["locals"][2].get("name"))
+        want = mk_bin("Add", ("field", pt, 0), mk_bin("Mul", ("field", pt, 1), ("const", 64)))
+        norm = lambda t: normal_form(fold(subst_size(t)))
+        shown[nm] = [show(fold(i)) if i[0] != "unknown" else i[1] for i in idxs]
+        good = len(idxs) >= 1 and all(i[0] != "unknown" and norm(i) is not None and norm(i) == norm(want) for i in idxs)
+        ok = ok and good
     rep.check(ok, "R20.3", "cell-index", "get_pixel, set_pixel and set_pixel_unchecked must all address pixels[x + y*SIZE]; found %s" % shown, detail=shown)
+
+
+def subst_size(t):
+    from mirq.origin import subst
+    return subst(t, lambda n: ("const", 64) if n[0] == "const" and isinstance(n[1], str) and "SIZE" in n[1] else None)
 
 
 def check_affected_area(prog, rep):
@@ -347,59 +389,85 @@ def check_affected_area(prog, rep):
 
 
 def check_pattern_space(prog, rep):
-    """' ' <-> None in from_pattern; Debug prints ' ' for None."""
+    """' ' <-> None in from_pattern: the character-to-pixel step (a closure or a function) maps ' ' to None."""
     fp = prog.method1(MD, "from_pattern", None)
     ok = False
-    st = [fp]
-    while st:
-        f = st.pop()
-        st.extend(prog.closures_of.get(f.id, []))
-        for lits, ret, _ in (decisions(f) if f.kind == "closure" else []):
-            for d, lit in lits:
-                if d[0] == "param" and lit == (32,) and ret[0] == "agg" and ret[1].endswith("Option::None"):
-                    ok = True
-    rep.check(ok, "R20.1", "from_pattern:space", "from_pattern must map ' ' to None (untouched)", at=fp.span, fn=fp.path)
+    fam = [fp]
+    i = 0
+    while i < len(fam):
+        fam.extend(prog.closures_of.get(fam[i].id, []))
+        i += 1
+    # function items handed to map(..) by from_pattern count as well
+    for g in list(fam):
+        for b in g.body["blocks"]:
+            for s_ in b["s"]:
+                for o in (s_.get("rv", {}).get("ops") or []):
+                    pass
+        for b in g.body["blocks"]:
+            t = b["t"]
+            if t and t["k"] == "call":
+                for a_ in t["args"]:
+                    c = a_.get("const")
+                    if c and isinstance(c.get("ty"), dict) and "fndef" in c["ty"]:
+                        for h in prog.by_path.get(c["ty"]["fndef"], []):
+                            if h.body and h.crate == "embedded_graphics" and h not in fam:
+                                fam.append(h)
+    for g in fam[1:]:
+        nparam = 2 if g.kind == "closure" else 1
+        tab, default = finite_table(prog, g, ("param", nparam, g.body["locals"][nparam].get("name")))
+        r = tab.get(32)
+        if r is not None and r[0] == "agg" and str(r[1]).endswith("Option::None") and default is not None and default[0] == "agg" and str(default[1]).endswith("Option::Some"):
+            ok = True
+    rep.check(ok, "R20.1", "from_pattern:space", "from_pattern must map ' ' to None (untouched) and every other character to a colour", at=fp.span, fn=fp.path)
 
 
 def check_diff(prog, rep):
+    """diff: per cell, a colour is recorded exactly for (Some, None), (None, Some) and (Some(a), Some(b)) with a != b
+    (path summaries of the loop body walked once, helpers looked through)."""
+    from mirq.paths import Paths, Unsupported, variant_of, show_fact
     df = prog.method1(MD, "diff", None)
-    o = Origins(df)
-    # the match in the loop body: enumerate switch structure is loop-bound; use dominating guards of each Some(colour) aggregate
-    from mirq.origin import dominating_guards
-    table = {}
-    for bi in sorted(o.cfg.live_blocks()):
-        for si, s in enumerate(df.body["blocks"][bi]["s"]):
-            if s["k"] == "assign" and s["rv"]["k"] == "agg" and str(s["rv"].get("adt", "")).endswith("Option") and df.body["locals"][s["place"]["l"]].get("name") == "diff_color":
-                gs = dominating_guards(df, o, bi)
-                key = []
-                for d, lit in gs:
-                    d = strip_refs(d)
-                    if d[0] == "discr":
-                        src = "self" if any(n == ("param", 1, "self") for n in walk(d)) else ("other" if any(n == ("param", 2, "other") for n in walk(d)) else "?")
-                        if any(n[0] == "call" and n[1].endswith("get_pixel") for n in walk(d)):
-                            key.append((src, {0: "None", 1: "Some"}.get(lit[0] if len(lit) == 1 else None, str(lit))))
-                    elif d[0] == "call" and (d[1].endswith("::ne") or d[1].endswith("::eq")):
-                        key.append((d[1].split("::")[-1], lit_truth(lit)))
-                val = s["rv"]["variant"]
-                table[tuple(sorted(key, key=str))] = val
-    want_none = [k for k, v in table.items() if v == "None"]
-    # required: (Some,None)->Some, (None,Some)->Some, (Some,Some,ne)->Some, and None otherwise
-    def has(k, *items):
-        return all(i in k for i in items)
     probs = []
-    some_keys = [k for k, v in table.items() if v == "Some"]
-    if not any(has(k, ("self", "Some"), ("other", "None")) for k in some_keys):
-        probs.append("(Some, None) must be reported")
-    if not any(has(k, ("self", "None"), ("other", "Some")) for k in some_keys):
-        probs.append("(None, Some) must be reported")
-    if not any(has(k, ("self", "Some"), ("other", "Some"), ("ne", True)) or has(k, ("self", "Some"), ("other", "Some"), ("eq", False)) for k in some_keys):
-        probs.append("(Some(a), Some(b)) with a != b must be reported")
-    if len(some_keys) != 3:
-        probs.append("exactly three differing cases expected, found %d" % len(some_keys))
-    rep.check(not probs, "R20.3", "diff", "; ".join(probs), at=df.span, fn=df.path, detail={str(k): v for k, v in table.items()})
+    table = {}
+    try:
+        summs = Paths(prog, loops="once", local_effects=True).of(df)
+    except Unsupported as e:
+        summs = []
+        probs.append("cannot summarise diff(): %s" % e)
+    for sm in summs:
+        for e in sm.calls():
+            c = e[1]
+            if c[1].split("::")[-1] not in ("set_pixel_unchecked", "set_pixel") or len(c[3]) != 3:
+                continue
+            point, colour = c[3][1], c[3][2]
+            key = {}
+            neq = None
+            for fct in sm.facts:
+                if fct[0] == "variant" and fct[1][0] == "call" and fct[1][1].endswith("get_pixel") and len(fct[1][3]) == 2 and fct[1][3][1] == point and len(fct[2]) == 1:
+                    who = "self" if fct[1][3][0] == ("param", 1, "self") else ("other" if fct[1][3][0] == ("param", 2, "other") else "?")
+                    key[who] = fct[2][0]
+                elif fct[0] in ("eq", "ne") and all(x[0] == "payload" and x[1][0] == "call" and x[1][1].endswith("get_pixel") for x in fct[1:3]):
+                    neq = fct[0] == "ne"
+                elif fct[0] in ("true", "false") and fct[1][0] == "call" and fct[1][1].split("::")[-1] in ("ne", "eq") and all(x[0] == "payload" for x in fct[1][3]):
+                    neq = (fct[0] == "true") == (fct[1][1].split("::")[-1] == "ne")
+            vo = variant_of(colour)
+            k = (key.get("self"), key.get("other"), neq)
+            v = vo[1] if vo else show(colour, maxd=3)
+            if table.get(k, v) != v:
+                probs.append("the case %s records both %s and %s" % (k, table[k], v))
+            table[k] = v
+    want = {("Some", "None", None): "Some", ("None", "Some", None): "Some", ("Some", "Some", True): "Some", ("Some", "Some", False): "None", ("None", "None", None): "None"}
+    for k, v in want.items():
+        got = table.get(k)
+        if got is None and v == "None":
+            # the two equal cases may be one fall-through that does not look at everything
+            got = next((tv for tk, tv in table.items() if all(a is None or a == b for a, b in zip(tk, k)) and tv == "None"), None)
+        if got != v:
+            probs.append("cells that are %s/%s%s must %s; found %s" % (k[0], k[1], "" if k[2] is None else (" and differ" if k[2] else " and are equal"), "be reported" if v == "Some" else "not be reported", got))
+    rep.check(not probs, "R20.3", "diff", "; ".join(probs[:3]), at=df.span, fn=df.path, detail={str(k): v for k, v in table.items()})
 
 
 def check_eq(prog, rep):
+    from mirq.paths import Paths, Unsupported
     eq = prog.method1(MD, "eq", "core::cmp::PartialEq")
     ro = strip_refs(Origins(eq).return_origin())
     px = field_index(prog, MD, "pixels")
@@ -407,4 +475,33 @@ def check_eq(prog, rep):
     it = lambda x: ("call", "*::iter", "_", (x,))
     ok = match(ro, ("call", "*Iterator::eq", "_", (it(a), it(b)))) is not None or match(ro, ("call", "*PartialEq>::eq", "_", (a, b))) is not None \
         or match(ro, ("call", "*::eq", "_", (a, b))) is not None
+    if not ok:
+        # element-wise comparison of the two arrays (both have the same fixed length): zip(..).all(|(a, b)| a == b)
+        try:
+            summs = Paths(prog, loops="once").of(eq)
+            zipped = ("call", "*::zip", "_", (it(a), it(b)))
+            good = bool(summs)
+            seen = set()
+            for sm in summs:
+                nxt = [fct for fct in sm.facts if fct[0] == "variant" and fct[1][0] == "call" and fct[1][1].split("::")[-1] == "next"]
+                if len(nxt) != 1 or match(nxt[0][1][3][0], zipped) is None or sm.effects:
+                    good = False
+                    continue
+                item = ("payload", nxt[0][1])
+                rest = [fct for fct in sm.facts if fct is not nxt[0]]
+                if nxt[0][2] == ("None",):
+                    good = good and not rest and sm.ret == ("const", True)
+                    seen.add("end")
+                else:
+                    pair = {repr(("field", item, 0)), repr(("field", item, 1))}
+                    if len(rest) == 1 and rest[0][0] == "ne" and {repr(rest[0][1]), repr(rest[0][2])} == pair:
+                        good = good and sm.ret == ("const", False)
+                        seen.add("differ")
+                    elif len(rest) == 1 and rest[0][0] == "eq" and {repr(rest[0][1]), repr(rest[0][2])} == pair:
+                        seen.add("same")
+                    else:
+                        good = False
+            ok = good and seen == {"end", "differ", "same"}
+        except Unsupported:
+            ok = False
     rep.check(ok, "R20.3", "eq", "MockDisplay::eq must compare the two complete pixel arrays (all 64x64 cells, including their number); found %s" % show(ro, maxd=6), at=eq.span, fn=eq.path)
